@@ -194,13 +194,25 @@ Section LogParse.
     | Some v => match parse_timestamp v with Some t => t | None => TsText zero_time end
     end.
 
-  (* for i, m := range metrics { if slices.Contains(metrics[:i], m) {continue};
-                                 value, ok := jsonObj[m].(string); if !ok {continue}; append } *)
+  (* The loop over the tracked names in its REPAIRED form (docs/proposed_fixes/new-json-duplicate-metric.diff):
+       for i, m := range metrics { if slices.Contains(metrics[:i], m) {continue};
+                                   value, ok := jsonObj[m].(string); if !ok {continue}; append }
+     The pinned tree has no such guard (and no break): see [json_records_pinned] below.  The two coincide when no
+     name is listed twice; inputs with a repeated name are the known-finding domain json-duplicate-metric, on which
+     the model is not compared with the implementation while the finding is open. *)
   Definition json_records (ms : list str) (kvs : list (str * jval)) : list mlog :=
     flat_map (fun m => match jlookup m kvs with
                        | Some (JString v) => [MLog (json_timestamp kvs) m v]
                        | _ => []
                        end) (dedup [] ms).
+
+  (* the loop exactly as written in the pinned tree:
+       for _, m := range metrics { value, ok := jsonObj[m].(string); if !ok {continue}; append } *)
+  Definition json_records_pinned (ms : list str) (kvs : list (str * jval)) : list mlog :=
+    flat_map (fun m => match jlookup m kvs with
+                       | Some (JString v) => [MLog (json_timestamp kvs) m v]
+                       | _ => []
+                       end) ms.
 
   Fixpoint json_lines (ms : list str) (lines : list str) : outcome (list mlog) :=
     match lines with
